@@ -31,6 +31,11 @@ open Masks
 /-- a scalar bijection with shape `()` and no condition -/
 abbrev ScalarBij (α : Type) := Bij α Unit α
 
+/-- the `transformer` argument of the two constructors, as far as `__init__` inspects it: its declared `shape` and `cond_shape` -/
+structure TSpec where
+  shape : List Nat
+  cond_shape : Option (List Nat)
+
 /-- the attributes of a `Coupling` the four methods read (coupling.py:35-40) -/
 structure CouplingObj (α : Type) where
   shape : List Nat
